@@ -1342,4 +1342,827 @@ theorem exposure_within_plan (kind : Kind) (B : Int) (hB : 1 ≤ B) (evs : List 
     simp only [Bool.and_eq_true, decide_eq_true_eq] at key
     exact key.1.1
 
+/-! ## C06 — attempts converge -/
+
+/-- the world after an undisturbed `DisableHPA` -/
+def disabledW (w : World) : World :=
+  match findHPA w noFault with
+  | .val (some (v, 0)) => setHPA w v 1
+  | _ => w
+
+/-- the world after an undisturbed `RestoreHPA` -/
+def enabledW (w : World) : World :=
+  match findHPA w noFault with
+  | .val (some (v, _ + 1)) => setHPA w v 0
+  | _ => w
+
+/-- the world after an undisturbed `patchStableRSMinReadySeconds` (Deployment control only) -/
+def rsW (kind : Kind) (w : World) : World :=
+  match kind with
+  | .deployment => if hasStableRS w.rss then { w with rss := patchFirstRS w.rss } else w
+  | .cloneSet => w
+
+theorem findHPA_congr (w w' : World) (f : Fault) (h2 : w'.hpaV2 = w.hpaV2) (h1 : w'.hpaV1 = w.hpaV1) :
+    findHPA w' f = findHPA w f := by
+  unfold findHPA; rw [h2, h1]
+
+theorem disabledW_of_zero (w : World) (v : Ver) (h : findHPA w noFault = .val (some (v, 0))) :
+    disabledW w = setHPA w v 1 := by
+  unfold disabledW; simp only [h]
+
+theorem disabledW_of_not (w : World) (h : ∀ v, findHPA w noFault ≠ .val (some (v, 0))) : disabledW w = w := by
+  unfold disabledW
+  split
+  · rename_i v hf; exact absurd hf (h v)
+  · rfl
+
+theorem enabledW_of_succ (w : World) (v : Ver) (k : Nat) (h : findHPA w noFault = .val (some (v, k + 1))) :
+    enabledW w = setHPA w v 0 := by
+  unfold enabledW; simp only [h]
+
+theorem enabledW_of_not (w : World) (h : ∀ v k, findHPA w noFault ≠ .val (some (v, k + 1))) : enabledW w = w := by
+  unfold enabledW
+  split
+  · rename_i v k hf; exact absurd hf (h v k)
+  · rfl
+
+theorem disabledW_idem (w : World) : disabledW (disabledW w) = disabledW w := by
+  by_cases h : ∃ v, findHPA w noFault = .val (some (v, 0))
+  · obtain ⟨v, hf⟩ := h
+    rw [disabledW_of_zero w v hf]
+    apply disabledW_of_not
+    intro v'
+    rw [findHPA_setHPA w v 0 1 hf]
+    simp
+  · have h' : ∀ v, findHPA w noFault ≠ .val (some (v, 0)) := fun v hv => h ⟨v, hv⟩
+    rw [disabledW_of_not w h', disabledW_of_not w h']
+
+theorem enabledW_idem (w : World) : enabledW (enabledW w) = enabledW w := by
+  by_cases h : ∃ v k, findHPA w noFault = .val (some (v, k + 1))
+  · obtain ⟨v, k, hf⟩ := h
+    rw [enabledW_of_succ w v k hf]
+    apply enabledW_of_not
+    intro v' k'
+    rw [findHPA_setHPA w v (k + 1) 0 hf]
+    simp
+  · have h' : ∀ v k, findHPA w noFault ≠ .val (some (v, k + 1)) := fun v k hv => h ⟨v, k, hv⟩
+    rw [enabledW_of_not w h', enabledW_of_not w h']
+
+theorem disabledW_frame (w : World) : (disabledW w).wl = w.wl ∧ (disabledW w).rss = w.rss := by
+  unfold disabledW
+  split
+  · exact ⟨setHPA_wl _ _ _, setHPA_rss _ _ _⟩
+  · exact ⟨rfl, rfl⟩
+
+theorem enabledW_frame (w : World) : (enabledW w).wl = w.wl ∧ (enabledW w).rss = w.rss := by
+  unfold enabledW
+  split
+  · exact ⟨setHPA_wl _ _ _, setHPA_rss _ _ _⟩
+  · exact ⟨rfl, rfl⟩
+
+theorem setHPA_with_wl (w : World) (x : Option Workload) (v : Ver) (k : Nat) :
+    setHPA { w with wl := x } v k = { setHPA w v k with wl := x } := by
+  cases v <;> rfl
+
+theorem setHPA_with_rss (w : World) (x : List RS) (v : Ver) (k : Nat) :
+    setHPA { w with rss := x } v k = { setHPA w v k with rss := x } := by
+  cases v <;> rfl
+
+/-- the HPA steps commute with changes of the workload object and of the ReplicaSets -/
+theorem disabledW_with_wl (w : World) (x : Option Workload) :
+    disabledW { w with wl := x } = { disabledW w with wl := x } := by
+  unfold disabledW
+  rw [findHPA_wl_irrel]
+  split
+  · rw [setHPA_with_wl]
+  · rfl
+
+theorem enabledW_with_wl (w : World) (x : Option Workload) :
+    enabledW { w with wl := x } = { enabledW w with wl := x } := by
+  unfold enabledW
+  rw [findHPA_wl_irrel]
+  split
+  · rw [setHPA_with_wl]
+  · rfl
+
+theorem disabledW_with_rss (w : World) (x : List RS) :
+    disabledW { w with rss := x } = { disabledW w with rss := x } := by
+  unfold disabledW
+  have : findHPA { w with rss := x } noFault = findHPA w noFault := rfl
+  rw [this]
+  split
+  · rw [setHPA_with_rss]
+  · rfl
+
+theorem patchFirstRS_idem (l : List RS) : patchFirstRS (patchFirstRS l) = patchFirstRS l := by
+  induction l with
+  | nil => rfl
+  | cons a t ih =>
+    cases hz : a.zero with
+    | true =>
+      have e1 : patchFirstRS (a :: t) = a :: patchFirstRS t := by simp only [patchFirstRS, hz, if_true]
+      rw [e1]
+      have e2 : patchFirstRS (a :: patchFirstRS t) = a :: patchFirstRS (patchFirstRS t) := by
+        simp only [patchFirstRS, hz, if_true]
+      rw [e2, ih]
+    | false =>
+      have e1 : patchFirstRS (a :: t) = { a with mrs := maxReady } :: t := by
+        simp only [patchFirstRS, hz, Bool.false_eq_true, if_false]
+      rw [e1]
+      simp only [patchFirstRS, hz, Bool.false_eq_true, if_false]
+
+theorem hasStableRS_patch (l : List RS) : hasStableRS (patchFirstRS l) = hasStableRS l := by
+  induction l with
+  | nil => rfl
+  | cons a t ih =>
+    cases hz : a.zero with
+    | true =>
+      have e1 : patchFirstRS (a :: t) = a :: patchFirstRS t := by simp only [patchFirstRS, hz, if_true]
+      rw [e1]
+      unfold hasStableRS at ih ⊢
+      simp only [List.any_cons, hz, Bool.not_true, Bool.false_or, ih]
+    | false =>
+      have e1 : patchFirstRS (a :: t) = { a with mrs := maxReady } :: t := by
+        simp only [patchFirstRS, hz, Bool.false_eq_true, if_false]
+      rw [e1]
+      unfold hasStableRS
+      simp only [List.any_cons, hz, Bool.not_false, Bool.true_or]
+
+theorem rsW_dep_of (w : World) (h : hasStableRS w.rss = true) :
+    rsW .deployment w = { w with rss := patchFirstRS w.rss } := by
+  simp only [rsW, h, if_true]
+
+theorem rsW_dep_not (w : World) (h : hasStableRS w.rss = false) : rsW .deployment w = w := by
+  simp only [rsW, h, Bool.false_eq_true, if_false]
+
+theorem rsW_idem (kind : Kind) (w : World) : rsW kind (rsW kind w) = rsW kind w := by
+  cases kind
+  · cases h : hasStableRS w.rss with
+    | true =>
+      rw [rsW_dep_of w h]
+      rw [rsW_dep_of _ (by simpa [hasStableRS_patch] using h)]
+      simp only [patchFirstRS_idem]
+    | false => rw [rsW_dep_not w h, rsW_dep_not w h]
+  · rfl
+
+theorem rsW_frame (kind : Kind) (w : World) :
+    (rsW kind w).wl = w.wl ∧ (rsW kind w).hpaV2 = w.hpaV2 ∧ (rsW kind w).hpaV1 = w.hpaV1 := by
+  cases kind
+  · unfold rsW; simp only []; split <;> exact ⟨rfl, rfl, rfl⟩
+  · exact ⟨rfl, rfl, rfl⟩
+
+theorem rsW_disabledW (kind : Kind) (w : World) : rsW kind (disabledW w) = disabledW (rsW kind w) := by
+  cases kind
+  · have hrss : (disabledW w).rss = w.rss := (disabledW_frame w).2
+    cases h : hasStableRS w.rss with
+    | true =>
+      have h' : hasStableRS (disabledW w).rss = true := by rw [hrss]; exact h
+      rw [rsW_dep_of w h, rsW_dep_of (disabledW w) h', disabledW_with_rss w (patchFirstRS w.rss), hrss]
+    | false =>
+      have h' : hasStableRS (disabledW w).rss = false := by rw [hrss]; exact h
+      rw [rsW_dep_not w h, rsW_dep_not (disabledW w) h']
+  · rfl
+
+/-- `DisableHPA` after the ReplicaSet step changes nothing more once it has run before it -/
+theorem disabledW_rsW (kind : Kind) (w : World) : disabledW (rsW kind (disabledW w)) = rsW kind (disabledW w) := by
+  rw [rsW_disabledW, disabledW_idem]
+
+/-! ### the calls in terms of the pure steps -/
+
+theorem disableHPA_pure (w : World) (f : Fault) (n : Nat) (w1 : World) (b : Bool) (n1 : Nat)
+    (h : disableHPA w f n = .val (w1, b, n1)) (hl : gListFault f = false) :
+    (w1 = w ∨ w1 = disabledW w) ∧ (b = true → w1 = disabledW w) := by
+  simp only [gListFault, Bool.or_eq_false_iff] at hl
+  have hnl := findHPA_noList w f hl.1 hl.2
+  rcases disableHPA_spec w f n w1 b n1 h with ⟨h1, _, hall⟩ | ⟨_, _, _, v, hf, h1⟩
+  · refine ⟨Or.inl h1, ?_⟩
+    intro hb
+    rw [h1]
+    symm
+    apply disabledW_of_not
+    intro v hv
+    rw [← hnl] at hv
+    exact hall hb v 0 hv rfl
+  · rw [hnl] at hf
+    rw [h1, disabledW_of_zero w v hf]
+    exact ⟨Or.inr rfl, fun _ => rfl⟩
+
+theorem disableHPA_noFault_ok (w : World) (n : Nat) (w1 : World) (b : Bool) (n1 : Nat)
+    (h : disableHPA w noFault n = .val (w1, b, n1)) : b = true := by
+  unfold disableHPA at h
+  split at h
+  · cases h
+  · simp only [Out.val.injEq, Prod.mk.injEq] at h; exact h.2.1.symm
+  · split at h
+    · simp only [Out.val.injEq, Prod.mk.injEq] at h; exact h.2.1.symm
+    · simp only [canWrite, noFault, if_true, Out.val.injEq, Prod.mk.injEq] at h; exact h.2.1.symm
+
+theorem stableRSStep_pure (kind : Kind) (w : World) (f : Fault) (n : Nat) (w2 : World) (b : Bool) (n2 : Nat)
+    (h : stableRSStep kind w f n = (w2, b, n2)) :
+    (w2 = w ∨ w2 = rsW kind w) ∧ (b = true → w2 = rsW kind w) := by
+  cases kind
+  · simp only [stableRSStep, patchStableRS] at h
+    cases hs : hasStableRS w.rss with
+    | true =>
+      rw [hs] at h
+      simp only [if_true] at h
+      split at h
+      · simp only [Prod.mk.injEq] at h
+        rw [← h.1, rsW_dep_of w hs]
+        exact ⟨Or.inr rfl, fun _ => rfl⟩
+      · simp only [Prod.mk.injEq] at h
+        refine ⟨Or.inl h.1.symm, ?_⟩
+        intro hb; rw [hb] at h; exact absurd h.2.1 (by decide)
+    | false =>
+      rw [hs] at h
+      simp only [Bool.false_eq_true, if_false, Prod.mk.injEq] at h
+      rw [← h.1, rsW_dep_not w hs]
+      exact ⟨Or.inl rfl, fun _ => rfl⟩
+  · simp only [stableRSStep, Prod.mk.injEq] at h
+    rw [← h.1]
+    exact ⟨Or.inl rfl, fun _ => rfl⟩
+
+theorem stableRSStep_noFault_ok (kind : Kind) (w : World) (n : Nat) (w2 : World) (b : Bool) (n2 : Nat)
+    (h : stableRSStep kind w noFault n = (w2, b, n2)) : b = true := by
+  cases kind
+  · simp only [stableRSStep, patchStableRS, canWrite, noFault, if_true] at h
+    split at h <;> simp only [Prod.mk.injEq] at h <;> exact h.2.1.symm
+  · simp only [stableRSStep, Prod.mk.injEq] at h; exact h.2.1.symm
+
+theorem finishHPA_pure (w : World) (f : Fault) (n : Nat) (out : CallOut) (h : finishHPA w f n = .val out)
+    (hl : gListFault f = false) :
+    (out.world = w ∨ out.world = enabledW w) ∧ (out.res = .ok → out.world = enabledW w) ∧
+    (out.res = .ok ∨ out.res = .err) := by
+  simp only [gListFault, Bool.or_eq_false_iff] at hl
+  have hnl := findHPA_noList w f hl.1 hl.2
+  rcases (finishHPA_spec w f n out h).2 with ⟨h1, _, hres, hall⟩ | ⟨_, hok, _, v, k, hk, hf, h1⟩
+  · refine ⟨Or.inl h1, ?_, hres⟩
+    intro hok
+    rw [h1]
+    symm
+    apply enabledW_of_not
+    intro v k hv
+    rw [← hnl] at hv
+    have := hall hok v (k + 1) hv
+    omega
+  · rw [hnl] at hf
+    obtain ⟨k', rfl⟩ : ∃ k', k = k' + 1 := ⟨k - 1, by omega⟩
+    rw [h1, enabledW_of_succ w v k' hf]
+    exact ⟨Or.inr rfl, fun _ => rfl, Or.inl hok⟩
+
+theorem finishHPA_noFault (w : World) (n : Nat) (out : CallOut) (h : finishHPA w noFault n = .val out) :
+    out.world = enabledW w ∧ out.res = .ok := by
+  have hok : out.res = .ok := by
+    unfold finishHPA at h
+    cases hr : restoreHPA w noFault n with
+    | panic => rw [hr] at h; cases h
+    | val r =>
+      obtain ⟨w1, b, n1⟩ := r
+      have hb := restoreHPA_noFault_ok w n w1 b n1 hr
+      subst hb
+      rw [hr] at h
+      simp only [Out.val.injEq] at h
+      rw [← h]
+  exact ⟨(finishHPA_pure w noFault n out h rfl).2.1 hok, hok⟩
+
+/-- the world `Initialize` aims at, before the patch of the workload itself -/
+def initBase (kind : Kind) (w : World) : World := rsW kind (disabledW w)
+
+theorem initBase_wl (kind : Kind) (w : World) : (initBase kind w).wl = w.wl := by
+  unfold initBase
+  rw [(rsW_frame kind _).1, (disabledW_frame w).1]
+
+/-- the three worlds a cut-short `Initialize` can leave behind all lead to the same base -/
+theorem initBase_stable (kind : Kind) (w X : World)
+    (hX : X = w ∨ X = disabledW w ∨ X = initBase kind w) : initBase kind X = initBase kind w := by
+  unfold initBase at hX ⊢
+  rcases hX with h | h | h
+  · rw [h]
+  · rw [h, disabledW_idem]
+  · rw [h, disabledW_rsW, rsW_idem]
+
+/-- an `Initialize` that is cut short by a write fault (no List fault) on a workload it does not control yet -/
+theorem init_first (kind : Kind) (w : World) (br : BR) (f : Fault) (o1 : CallOut) (wl : Workload)
+    (h : cpInitialize kind w br f = .val o1) (hw : w.wl = some wl) (hc : controlled br wl = false)
+    (hl : gListFault f = false) :
+    ((o1.world = w ∨ o1.world = disabledW w ∨ o1.world = initBase kind w) ∧ o1.res ≠ .ok) ∨
+    (∃ s, getSetting wl.saved = some s ∧ o1.res = .ok ∧
+      o1.world = { initBase kind w with wl := some (initPatch kind br (initSetting kind s wl) wl) }) := by
+  rcases initialize_cases kind w br f o1 h with ⟨_, ho⟩ | ⟨_, hn, _⟩ | ⟨wl', R, _, hw', _, hcc⟩
+  · subst ho; left; exact ⟨Or.inl rfl, by simp⟩
+  · rw [hw] at hn; cases hn
+  · rw [hw] at hw'; cases hw'
+    rcases hcc with ⟨hc', _⟩ | ⟨_, w1, b1, n1, hd, hrest⟩
+    · rw [hc] at hc'; cases hc'
+    · have hD := disableHPA_pure w f 0 w1 b1 n1 hd hl
+      rcases hrest with ⟨_, ho⟩ | ⟨hb1, w2, b2, n2, hs, hrest⟩
+      · subst ho; left
+        refine ⟨?_, by simp⟩
+        rcases hD.1 with e | e
+        · exact Or.inl e
+        · exact Or.inr (Or.inl e)
+      · have hw1 := hD.2 hb1
+        have hS := stableRSStep_pure kind w1 f n1 w2 b2 n2 hs
+        have hw2 : w2 = disabledW w ∨ w2 = initBase kind w := by
+          rcases hS.1 with e | e
+          · left; rw [e, hw1]
+          · right; rw [e, hw1]; rfl
+        rcases hrest with ⟨_, ho⟩ | ⟨hb2, hset⟩
+        · subst ho; left; exact ⟨Or.inr hw2, by simp⟩
+        · have hw2' : w2 = initBase kind w := by rw [hS.2 hb2, hw1]; rfl
+          rcases hset with ⟨_, ho⟩ | ⟨s, hgs, hwr⟩
+          · subst ho; left; exact ⟨Or.inr (Or.inr hw2'), by simp⟩
+          · rcases hwr with ⟨_, ho⟩ | ⟨_, ho⟩
+            · subst ho; right; exact ⟨s, hgs, rfl, by rw [hw2']⟩
+            · subst ho; left; exact ⟨Or.inr (Or.inr hw2'), by simp⟩
+
+/-- an undisturbed `Initialize` on a workload it does not control yet -/
+theorem init_direct (kind : Kind) (w : World) (br : BR) (o : CallOut) (wl : Workload)
+    (h : cpInitialize kind w br noFault = .val o) (hw : w.wl = some wl) (hc : controlled br wl = false) :
+    (getSetting wl.saved = none ∧ o.res = .badRequest ∧ o.world = initBase kind w) ∨
+    (∃ s, getSetting wl.saved = some s ∧ o.res = .ok ∧
+      o.world = { initBase kind w with wl := some (initPatch kind br (initSetting kind s wl) wl) }) := by
+  rcases initialize_cases kind w br noFault o h with ⟨hg, _⟩ | ⟨_, hn, _⟩ | ⟨wl', R, _, hw', _, hcc⟩
+  · cases hg
+  · rw [hw] at hn; cases hn
+  · rw [hw] at hw'; cases hw'
+    rcases hcc with ⟨hc', _⟩ | ⟨_, w1, b1, n1, hd, hrest⟩
+    · rw [hc] at hc'; cases hc'
+    · have hb1 := disableHPA_noFault_ok w 0 w1 b1 n1 hd
+      have hw1 := (disableHPA_pure w noFault 0 w1 b1 n1 hd rfl).2 hb1
+      rcases hrest with ⟨hb, _⟩ | ⟨_, w2, b2, n2, hs, hrest⟩
+      · rw [hb1] at hb; cases hb
+      · have hb2 := stableRSStep_noFault_ok kind w1 n1 w2 b2 n2 hs
+        have hw2 : w2 = initBase kind w := by rw [(stableRSStep_pure kind w1 noFault n1 w2 b2 n2 hs).2 hb2, hw1]; rfl
+        rcases hrest with ⟨hb, _⟩ | ⟨_, hset⟩
+        · rw [hb2] at hb; cases hb
+        · rcases hset with ⟨hgs, ho⟩ | ⟨s, hgs, hwr⟩
+          · subst ho; left; exact ⟨hgs, rfl, hw2⟩
+          · rcases hwr with ⟨_, ho⟩ | ⟨hcw, _⟩
+            · subst ho; right; exact ⟨s, hgs, rfl, by rw [hw2]⟩
+            · cases hcw
+
+theorem init_converges (kind : Kind) (w : World) (br : BR) (f : Fault) (o1 o2 o3 : CallOut)
+    (h1 : cpInitialize kind w br f = .val o1) (h2 : cpInitialize kind o1.world br noFault = .val o2)
+    (h3 : cpInitialize kind w br noFault = .val o3) (hl : gListFault f = false) :
+    o2.world = o3.world ∧ o2.res = o3.res := by
+  cases hw : w.wl with
+  | none =>
+    -- no workload: every attempt reports NotFound (or the Get fault) and changes nothing
+    have e1 : o1.world = w := by
+      rcases initialize_cases kind w br f o1 h1 with ⟨_, ho⟩ | ⟨_, _, ho⟩ | ⟨wl, _, _, hw', _⟩
+      · subst ho; rfl
+      · subst ho; rfl
+      · rw [hw] at hw'; cases hw'
+    rw [e1] at h2
+    rw [h2] at h3
+    cases h3
+    exact ⟨rfl, rfl⟩
+  | some wl =>
+    by_cases hc : controlled br wl = true
+    · -- already controlled: nothing happens in any attempt
+      have e1 : o1.world = w := by
+        rcases initialize_cases kind w br f o1 h1 with ⟨_, ho⟩ | ⟨_, _, ho⟩ | ⟨wl', _, _, hw', _, hcc⟩
+        · subst ho; rfl
+        · subst ho; rfl
+        · rw [hw] at hw'; cases hw'
+          rcases hcc with ⟨_, ho⟩ | ⟨hc', _⟩
+          · subst ho; rfl
+          · rw [hc] at hc'; cases hc'
+      rw [e1] at h2
+      rw [h2] at h3
+      cases h3
+      exact ⟨rfl, rfl⟩
+    · have hc' : controlled br wl = false := by simpa using hc
+      rcases init_first kind w br f o1 wl h1 hw hc' hl with ⟨hX, _⟩ | ⟨s, hgs, _, hw1⟩
+      · have hwl1 : o1.world.wl = some wl := by
+          rcases hX with e | e | e
+          · rw [e]; exact hw
+          · rw [e, (disabledW_frame w).1]; exact hw
+          · rw [e, initBase_wl]; exact hw
+        have hbase := initBase_stable kind w o1.world hX
+        rcases init_direct kind o1.world br o2 wl h2 hwl1 hc' with ⟨hg2, hr2, hw2⟩ | ⟨s2, hg2, hr2, hw2⟩ <;>
+          rcases init_direct kind w br o3 wl h3 hw hc' with ⟨hg3, hr3, hw3⟩ | ⟨s3, hg3, hr3, hw3⟩
+        · exact ⟨by rw [hw2, hw3, hbase], by rw [hr2, hr3]⟩
+        · rw [hg2] at hg3; cases hg3
+        · rw [hg2] at hg3; cases hg3
+        · rw [hg2] at hg3; cases hg3
+          exact ⟨by rw [hw2, hw3, hbase], by rw [hr2, hr3]⟩
+      · -- the first attempt completed: the second finds the workload controlled
+        have hctl : controlled br (initPatch kind br (initSetting kind s wl) wl) = true := by
+          cases kind <;> simp [controlled, initPatch]
+        have e2 : o2.world = o1.world ∧ o2.res = .ok := by
+          rcases initialize_cases kind o1.world br noFault o2 h2 with ⟨hg, _⟩ | ⟨_, hn, _⟩ | ⟨wl', _, _, hw', _, hcc⟩
+          · cases hg
+          · rw [hw1] at hn; cases hn
+          · rw [hw1] at hw'
+            simp only [Option.some.injEq] at hw'
+            subst hw'
+            rcases hcc with ⟨_, ho⟩ | ⟨hc2, _⟩
+            · subst ho; exact ⟨rfl, rfl⟩
+            · rw [hctl] at hc2; cases hc2
+        rcases init_direct kind w br o3 wl h3 hw hc' with ⟨hg3, _, _⟩ | ⟨s3, hg3, hr3, hw3⟩
+        · rw [hgs] at hg3; cases hg3
+        · rw [hgs] at hg3; cases hg3
+          exact ⟨by rw [e2.1, hw1, hw3], by rw [e2.2, hr3]⟩
+
+theorem validate_upgradePatch (kind : Kind) (e : IntOrPct) (wl : Workload) (hv : validate kind wl = true) :
+    validate kind (upgradePatch kind e wl) = true := by
+  cases kind
+  · simp only [validate, Bool.and_eq_true, decide_eq_true_eq, ne_eq, decide_not, Bool.not_eq_true',
+      decide_eq_false_iff_not] at hv ⊢
+    simp only [upgradePatch, Option.isSome_some, reduceCtorEq, not_false_eq_true, and_true]
+    exact ⟨⟨hv.1.1.1.1, hv.1.2⟩, hv.2⟩
+  · exact hv
+
+theorem upgradePatch_idem (kind : Kind) (e : IntOrPct) (wl : Workload) :
+    upgradePatch kind e (upgradePatch kind e wl) = upgradePatch kind e wl := by
+  cases kind
+  · rfl
+  · simp [upgradePatch, ruUnavailable]
+
+theorem upgradePatch_replicas (kind : Kind) (e : IntOrPct) (wl : Workload) :
+    (upgradePatch kind e wl).replicas = wl.replicas := by
+  cases kind <;> rfl
+
+theorem upgrade_converges (kind : Kind) (w : World) (br : BR) (f : Fault) (o1 o2 o3 : CallOut)
+    (h1 : cpUpgradeBatch kind w br f = .val o1) (h2 : cpUpgradeBatch kind o1.world br noFault = .val o2)
+    (h3 : cpUpgradeBatch kind w br noFault = .val o3) :
+    o2.world = o3.world ∧ o2.res = o3.res := by
+  rcases upgrade_world kind w br f o1 h1 with ⟨e1, _⟩ | ⟨wl, R, e, hw, hR, hR0, he, hv, hlt, _, _, hw1⟩
+  · rw [e1] at h2
+    rw [h2] at h3
+    cases h3
+    exact ⟨rfl, rfl⟩
+  · have hcw : canWrite noFault 0 = true := rfl
+    -- the undisturbed call writes the same patch
+    have e3 : o3.world = o1.world ∧ o3.res = .ok := by
+      rcases upgrade_cases kind w br noFault o3 h3 with ⟨hg, _⟩ | ⟨_, hn, _⟩ | ⟨wl', R', _, hw', hR', hc⟩
+      · cases hg
+      · rw [hw] at hn; cases hn
+      · rw [hw] at hw'; cases hw'
+        rw [hR] at hR'; cases hR'
+        rcases hc with ⟨h0, _⟩ | ⟨_, e', he', hc⟩
+        · exact absurd h0 hR0
+        · rw [he] at he'; cases he'
+          rcases hc with ⟨hv', _⟩ | ⟨_, hge, _⟩ | ⟨_, _, _, ho⟩ | ⟨_, _, hcw', _⟩
+          · rw [hv] at hv'; cases hv'
+          · omega
+          · subst ho; exact ⟨hw1.symm, rfl⟩
+          · rw [hcw] at hcw'; cases hcw'
+    have e2 : o2.world = o1.world ∧ o2.res = .ok := by
+      rcases upgrade_cases kind o1.world br noFault o2 h2 with ⟨hg, _⟩ | ⟨_, hn, _⟩ | ⟨wl', R', _, hw', hR', hc⟩
+      · cases hg
+      · rw [hw1] at hn; cases hn
+      · rw [hw1] at hw'
+        simp only [Option.some.injEq] at hw'
+        subst hw'
+        rw [upgradePatch_replicas, hR] at hR'; cases hR'
+        rcases hc with ⟨h0, _⟩ | ⟨_, e', he', hc⟩
+        · exact absurd h0 hR0
+        · rw [he] at he'; cases he'
+          rcases hc with ⟨hv', _⟩ | ⟨_, _, ho⟩ | ⟨_, _, _, ho⟩ | ⟨_, _, hcw', _⟩
+          · rw [validate_upgradePatch kind e wl hv] at hv'; cases hv'
+          · subst ho; exact ⟨rfl, rfl⟩
+          · subst ho
+            refine ⟨?_, rfl⟩
+            rw [hw1]
+            simp only [upgradePatch_idem]
+          · rw [hcw] at hcw'; cases hcw'
+    exact ⟨by rw [e2.1, e3.1], by rw [e2.2, e3.2]⟩
+
+/-- an undisturbed `Finalize` that is meant to release an existing workload -/
+theorem finalize_direct (kind : Kind) (X : World) (br : BR) (o : CallOut) (wl : Workload)
+    (h : cpFinalize kind X br noFault = .val o) (hw : X.wl = some wl) (hp : br.partitioned = false) :
+    (restored wl = true ∧
+      ((waitStep kind wl emptyDeployment = .val false ∧ o.world = X ∧ o.res = .retry) ∨
+       (waitStep kind wl emptyDeployment = .val true ∧ o.world = enabledW X ∧ o.res = .ok))) ∨
+    (restored wl = false ∧
+      ((getSetting wl.saved = none ∧ o.world = X ∧ o.res = .err) ∨
+       (∃ s, getSetting wl.saved = some s ∧
+         ((waitStep kind wl (finalizePatch kind s wl) = .val false ∧
+             o.world = { X with wl := some (finalizePatch kind s wl) } ∧ o.res = .retry) ∨
+          (waitStep kind wl (finalizePatch kind s wl) = .val true ∧
+             o.world = enabledW { X with wl := some (finalizePatch kind s wl) } ∧ o.res = .ok))))) := by
+  rcases finalize_cases kind X br noFault o h with ⟨hg, _⟩ | ⟨_, hn, _⟩ | ⟨wl', R, _, hw', _, hc⟩
+  · cases hg
+  · rw [hw] at hn; cases hn
+  · rw [hw] at hw'; cases hw'
+    rcases hc with ⟨hp', _⟩ | ⟨_, hc⟩
+    · rw [hp] at hp'; cases hp'
+    · rcases hc with ⟨hr, hfw⟩ | ⟨hr, hc⟩
+      · left
+        refine ⟨hr, ?_⟩
+        rcases hfw with ⟨hwt, ho⟩ | ⟨hwt, hfin⟩
+        · subst ho; left; exact ⟨hwt, rfl, rfl⟩
+        · right; exact ⟨hwt, finishHPA_noFault _ _ _ hfin⟩
+      · right
+        refine ⟨hr, ?_⟩
+        rcases hc with ⟨hgs, ho⟩ | ⟨s, hgs, hc⟩
+        · subst ho; left; exact ⟨hgs, rfl, rfl⟩
+        · right
+          refine ⟨s, hgs, ?_⟩
+          rcases hc with ⟨hcw, _⟩ | ⟨_, hfw⟩
+          · cases hcw
+          · rcases hfw with ⟨hwt, ho⟩ | ⟨hwt, hfin⟩
+            · subst ho; left; exact ⟨hwt, rfl, rfl⟩
+            · right; exact ⟨hwt, finishHPA_noFault _ _ _ hfin⟩
+
+/-- the worlds a `Finalize` under write faults (no List fault) can leave behind -/
+theorem finalize_first (kind : Kind) (w : World) (br : BR) (f : Fault) (o1 : CallOut) (wl : Workload)
+    (h : cpFinalize kind w br f = .val o1) (hw : w.wl = some wl) (hl : gListFault f = false) :
+    o1.world = w ∨
+    (restored wl = true ∧ waitStep kind wl emptyDeployment = .val true ∧ o1.world = enabledW w) ∨
+    (restored wl = false ∧ br.partitioned = false ∧ ∃ s, getSetting wl.saved = some s ∧
+      (o1.world = { w with wl := some (finalizePatch kind s wl) } ∨
+       (waitStep kind wl (finalizePatch kind s wl) = .val true ∧
+          o1.world = enabledW { w with wl := some (finalizePatch kind s wl) }))) := by
+  rcases finalize_cases kind w br f o1 h with ⟨_, ho⟩ | ⟨_, _, ho⟩ | ⟨wl', R, _, hw', _, hc⟩
+  · subst ho; left; rfl
+  · subst ho; left; rfl
+  · rw [hw] at hw'; cases hw'
+    rcases hc with ⟨_, ho⟩ | ⟨hp, hc⟩
+    · subst ho; left; rfl
+    · rcases hc with ⟨hr, hfw⟩ | ⟨hr, hc⟩
+      · rcases hfw with ⟨_, ho⟩ | ⟨hwt, hfin⟩
+        · subst ho; left; rfl
+        · rcases (finishHPA_pure _ _ _ _ hfin hl).1 with e | e
+          · left; exact e
+          · right; left; exact ⟨hr, hwt, e⟩
+      · rcases hc with ⟨_, ho⟩ | ⟨s, hgs, hc⟩
+        · subst ho; left; rfl
+        · rcases hc with ⟨_, ho⟩ | ⟨_, hfw⟩
+          · subst ho; left; rfl
+          · right; right
+            refine ⟨hr, hp, s, hgs, ?_⟩
+            rcases hfw with ⟨_, ho⟩ | ⟨hwt, hfin⟩
+            · subst ho; left; rfl
+            · rcases (finishHPA_pure _ _ _ _ hfin hl).1 with e | e
+              · left; exact e
+              · right; exact ⟨hwt, e⟩
+
+theorem restored_finalizePatch (kind : Kind) (s : Setting) (wl : Workload) : restored (finalizePatch kind s wl) = true := by
+  cases kind <;> simp [restored, finalizePatch]
+
+theorem waitStep_cs_irrel (wl d d' : Workload) : waitStep .cloneSet wl d = waitStep .cloneSet wl d' := rfl
+
+theorem finalize_converges (kind : Kind) (w : World) (br : BR) (f : Fault) (o1 o2 o3 : CallOut)
+    (h1 : cpFinalize kind w br f = .val o1) (h2 : cpFinalize kind o1.world br noFault = .val o2)
+    (h3 : cpFinalize kind w br noFault = .val o3) (hl : gListFault f = false)
+    (hG : ∀ wl, w.wl = some wl → ¬ (kind = .deployment ∧ br.partitioned = false ∧ restored wl = false ∧
+      waitFailsAfterPatch wl = true)) :
+    o2.world = o3.world ∧ o2.res = o3.res := by
+  have same : o1.world = w → o2.world = o3.world ∧ o2.res = o3.res := by
+    intro e
+    rw [e] at h2
+    rw [h2] at h3
+    cases h3
+    exact ⟨rfl, rfl⟩
+  cases hw : w.wl with
+  | none =>
+    apply same
+    rcases finalize_cases kind w br f o1 h1 with ⟨_, ho⟩ | ⟨_, _, ho⟩ | ⟨wl, _, _, hw', _⟩
+    · subst ho; rfl
+    · subst ho; rfl
+    · rw [hw] at hw'; cases hw'
+  | some wl =>
+    rcases finalize_first kind w br f o1 wl h1 hw hl with e | ⟨hr, hwt, e⟩ | ⟨hr, hp, s, hgs, hcase⟩
+    · exact same e
+    · -- restored path completed: the second attempt repeats it on the enabled world
+      by_cases hp : br.partitioned = true
+      · -- impossible: a partitioned Finalize does not reach RestoreHPA; but then nothing changed at all
+        have : o1.world = w := by
+          rcases finalize_cases kind w br f o1 h1 with ⟨_, ho⟩ | ⟨_, _, ho⟩ | ⟨wl', _, _, hw', _, hc⟩
+          · subst ho; rfl
+          · subst ho; rfl
+          · rcases hc with ⟨_, ho⟩ | ⟨hp', _⟩
+            · subst ho; rfl
+            · rw [hp] at hp'; cases hp'
+        exact same this
+      · have hp' : br.partitioned = false := by simpa using hp
+        have hwl1 : o1.world.wl = some wl := by rw [e, (enabledW_frame w).1]; exact hw
+        rcases finalize_direct kind o1.world br o2 wl h2 hwl1 hp' with ⟨_, hc2⟩ | ⟨hr2, _⟩
+        · rcases finalize_direct kind w br o3 wl h3 hw hp' with ⟨_, hc3⟩ | ⟨hr3, _⟩
+          · rcases hc2 with ⟨hw2, _⟩ | ⟨_, ew2, er2⟩
+            · rw [hwt] at hw2; cases hw2
+            · rcases hc3 with ⟨hw3, _⟩ | ⟨_, ew3, er3⟩
+              · rw [hwt] at hw3; cases hw3
+              · exact ⟨by rw [ew2, ew3, e, enabledW_idem], by rw [er2, er3]⟩
+          · rw [hr] at hr3; cases hr3
+        · rw [hr] at hr2; cases hr2
+    · -- patched path
+      let wl' := finalizePatch kind s wl
+      have hwl1 : o1.world.wl = some wl' := by
+        rcases hcase with e | ⟨_, e⟩
+        · rw [e]
+        · rw [e, (enabledW_frame _).1]
+      have hen : enabledW o1.world = enabledW { w with wl := some wl' } := by
+        rcases hcase with e | ⟨_, e⟩
+        · rw [e]
+        · rw [e, enabledW_idem]
+      have hr' := restored_finalizePatch kind s wl
+      rcases finalize_direct kind w br o3 wl h3 hw hp with ⟨hr3, _⟩ | ⟨_, hc3⟩
+      · rw [hr] at hr3; cases hr3
+      · rcases hc3 with ⟨hg3, _⟩ | ⟨s3, hg3, hc3⟩
+        · rw [hgs] at hg3; cases hg3
+        · rw [hgs] at hg3; cases hg3
+          -- the verdict of the wait in the second attempt equals the verdict of the undisturbed call
+          have hverdict : ∀ b, waitStep kind wl wl' = .val b → waitStep kind wl' emptyDeployment = .val b := by
+            intro b hb
+            cases kind
+            · -- Deployment: the empty object always passes; outside the guard the real wait passes too
+              cases b
+              · exfalso
+                apply hG wl hw
+                refine ⟨rfl, hp, hr, ?_⟩
+                simp only [waitFailsAfterPatch, hgs]
+                simp only [waitStep] at hb
+                rw [hb]
+              · rfl
+            · simpa [waitStep, wl', finalizePatch] using hb
+          rcases finalize_direct kind o1.world br o2 wl' h2 hwl1 hp with ⟨_, hc2⟩ | ⟨hr2, _⟩
+          · rcases hc3 with ⟨hw3, ew3, er3⟩ | ⟨hw3, ew3, er3⟩
+            · have hv := hverdict false hw3
+              rcases hc2 with ⟨_, ew2, er2⟩ | ⟨hw2, _⟩
+              · -- both report retry; the first attempt cannot have reached RestoreHPA
+                have e1 : o1.world = { w with wl := some wl' } := by
+                  rcases hcase with e | ⟨hwt, _⟩
+                  · exact e
+                  · rw [hw3] at hwt; cases hwt
+                exact ⟨by rw [ew2, ew3, e1], by rw [er2, er3]⟩
+              · rw [hv] at hw2; cases hw2
+            · have hv := hverdict true hw3
+              rcases hc2 with ⟨hw2, _⟩ | ⟨_, ew2, er2⟩
+              · rw [hv] at hw2; cases hw2
+              · exact ⟨by rw [ew2, ew3, hen], by rw [er2, er3]⟩
+          · rw [hr'] at hr2; cases hr2
+
+/-- **C06 (convergence, partial)** — for each of the three calls, every world and every write / Get fault: if an
+    attempt is cut short by the fault and the call is simply repeated (as the next reconcile does), the object
+    store ends exactly where an undisturbed call would have put it, and the repeated call reports what the
+    undisturbed one reports.  Outside the known findings `hpaListFault` (a failed List of HPAs is mistaken for
+    "no HPA") and `deployFinalizeRetry` (the Deployment `Finalize` whose wait failed after its patch). -/
+theorem retry_converges_partial (kind : Kind) (op : Op) (w : World) (br : BR) (f : Fault) (o1 o2 o3 : CallOut)
+    (h1 : call kind op w br f = .val o1) (h2 : call kind op o1.world br noFault = .val o2)
+    (h3 : call kind op w br noFault = .val o3)
+    (hL : gListFault f = false) (hG : gFinalizeWaitFails kind op w br = false) :
+    retryConverges o2 o3 = true := by
+  unfold retryConverges
+  simp only [Bool.and_eq_true, decide_eq_true_eq]
+  cases op with
+  | init => exact init_converges kind w br f o1 o2 o3 h1 h2 h3 hL
+  | upgrade => exact upgrade_converges kind w br f o1 o2 o3 h1 h2 h3
+  | fin =>
+    apply finalize_converges kind w br f o1 o2 o3 h1 h2 h3 hL
+    intro wl hw ⟨hk, hp, hr, hwf⟩
+    subst hk
+    simp [gFinalizeWaitFails, hw, hp, hr, hwf] at hG
+
+theorem findHPA_enabledW (w : World) (v : Ver) (k : Nat) (h : findHPA (enabledW w) noFault = .val (some (v, k))) :
+    k = 0 := by
+  by_cases hs : ∃ v' k', findHPA w noFault = .val (some (v', k' + 1))
+  · obtain ⟨v', k', hf⟩ := hs
+    rw [enabledW_of_succ w v' k' hf, findHPA_setHPA w v' (k' + 1) 0 hf] at h
+    simp only [Out.val.injEq, Option.some.injEq, Prod.mk.injEq] at h
+    exact h.2.symm
+  · have hs' : ∀ v' k', findHPA w noFault ≠ .val (some (v', k' + 1)) := fun v' k' hv => hs ⟨v', k', hv⟩
+    rw [enabledW_of_not w hs'] at h
+    cases k with
+    | zero => rfl
+    | succ k' => exact absurd h (hs' v k')
+
+theorem init_controlled_writes (kind : Kind) (X : World) (br : BR) (f : Fault) (o : CallOut) (wl : Workload)
+    (h : cpInitialize kind X br f = .val o) (hw : X.wl = some wl) (hc : controlled br wl = true) : o.writes = 0 := by
+  rcases initialize_cases kind X br f o h with ⟨_, ho⟩ | ⟨_, _, ho⟩ | ⟨wl', _, _, hw', _, hcc⟩
+  · subst ho; rfl
+  · subst ho; rfl
+  · rw [hw] at hw'; cases hw'
+    rcases hcc with ⟨_, ho⟩ | ⟨hc', _⟩
+    · subst ho; rfl
+    · rw [hc] at hc'; cases hc'
+
+theorem curSurge_upgradePatch (kind : Kind) (e : IntOrPct) (wl : Workload) :
+    curSurge (upgradePatch kind e wl) = RV.BatchCtx.normSurge e := by
+  cases kind <;> simp [curSurge, upgradePatch, ruSurge]
+
+/-- **C06 (no step twice with additional effect, partial)** — repeating an undisturbed call changes nothing and
+    reports the same; after a success the repetition issues no write at all, except that `UpgradeBatch` re-sends its
+    (identical) patch when the batch is exactly `1`.  Outside the known finding `deployFinalizeRetry`. -/
+theorem idempotent_partial (kind : Kind) (op : Op) (w : World) (br : BR) (o3 o4 : CallOut)
+    (h3 : call kind op w br noFault = .val o3) (h4 : call kind op o3.world br noFault = .val o4)
+    (hG : gFinalizeWaitFails kind op w br = false) :
+    idempotent op br o3 o4 = true := by
+  have hconv := retry_converges_partial kind op w br noFault o3 o4 o3 h3 h4 h3 rfl hG
+  unfold retryConverges at hconv
+  simp only [Bool.and_eq_true, decide_eq_true_eq] at hconv
+  unfold idempotent
+  simp only [Bool.and_eq_true, Bool.or_eq_true, decide_eq_true_eq, ne_eq, decide_not, Bool.not_eq_true',
+    decide_eq_false_iff_not]
+  refine ⟨hconv, ?_⟩
+  by_cases hok : o3.res = .ok
+  · cases op with
+    | init =>
+      left; right
+      rcases initialize_wl kind w br noFault o3 h3 with ⟨hwl, hc⟩ | ⟨wl, s, _, _, _, _, hwl⟩
+      · obtain ⟨wl, hw, hcc⟩ := hc hok
+        exact init_controlled_writes kind o3.world br noFault o4 wl h4 (hwl.trans hw) hcc
+      · exact init_controlled_writes kind o3.world br noFault o4 _ h4 hwl (by cases kind <;> simp [controlled, initPatch])
+    | upgrade =>
+      rcases upgrade_world kind w br noFault o3 h3 with ⟨e1, hw0⟩ | ⟨wl, R, e, hw, hR, hR0, he, hv, hlt, _, _, hw1⟩
+      · left; right
+        rw [e1] at h4
+        rw [h3] at h4
+        cases h4
+        exact hw0
+      · rcases upgrade_cases kind o3.world br noFault o4 h4 with ⟨_, ho⟩ | ⟨_, _, ho⟩ | ⟨wl', R', _, hw', hR', hc⟩
+        · subst ho; left; right; rfl
+        · subst ho; left; right; rfl
+        · rcases hc with ⟨_, ho⟩ | ⟨_, e', he', hc⟩
+          · subst ho; left; right; rfl
+          · rcases hc with ⟨_, ho⟩ | ⟨_, _, ho⟩ | ⟨_, hlt', _, ho⟩ | ⟨_, _, _, ho⟩
+            · subst ho; left; right; rfl
+            · subst ho; left; right; rfl
+            · -- a second write happens only for the batch `1` (read back as "initial value")
+              right
+              rw [hw1] at hw'
+              simp only [Option.some.injEq] at hw'
+              subst hw'
+              rw [he] at he'; cases he'
+              rw [curSurge_upgradePatch] at hlt'
+              refine ⟨rfl, ?_⟩
+              rw [he]
+              unfold RV.BatchCtx.normSurge at hlt'
+              split at hlt'
+              · rename_i h1; rw [h1]
+              · omega
+            · subst ho; left; right; rfl
+    | fin =>
+      left; right
+      have fin0 : ∀ X : World, (∀ v k, findHPA X noFault = .val (some (v, k)) → k = 0) →
+          finishHPA X noFault 0 = .val o4 → o4.writes = 0 := by
+        intro X hall hf
+        rcases (finishHPA_spec X noFault 0 o4 hf).2 with ⟨_, e, _⟩ | ⟨_, _, _, v, k, hk, hfk, _⟩
+        · exact e
+        · exact absurd (hall v k hfk) hk
+      -- the world the successful call left: restored workload, HPA enabled
+      have hshape : (∀ wl4, o3.world.wl = some wl4 → br.partitioned = false → restored wl4 = true) ∧
+          (br.partitioned = false → (∃ wl, w.wl = some wl) → ∀ v k, findHPA o3.world noFault = .val (some (v, k)) → k = 0) := by
+        cases hw : w.wl with
+        | none =>
+          refine ⟨?_, ?_⟩
+          · intro wl4 h4' _
+            have : o3.world = w := by
+              rcases finalize_cases kind w br noFault o3 h3 with ⟨_, ho⟩ | ⟨_, _, ho⟩ | ⟨wl, _, _, hw', _⟩
+              · subst ho; rfl
+              · subst ho; rfl
+              · rw [hw] at hw'; cases hw'
+            rw [this, hw] at h4'; cases h4'
+          · intro _ ⟨wl, hwl⟩; cases hwl
+        | some wl =>
+          refine ⟨?_, ?_⟩
+          · intro wl4 h4' hp
+            rcases finalize_direct kind w br o3 wl h3 hw hp with ⟨hr, hc⟩ | ⟨_, hc⟩
+            · rcases hc with ⟨_, _, er⟩ | ⟨_, ew, _⟩
+              · rw [hok] at er; cases er
+              · rw [ew, (enabledW_frame w).1, hw] at h4'; cases h4'; exact hr
+            · rcases hc with ⟨_, _, er⟩ | ⟨s, _, hc⟩
+              · rw [hok] at er; cases er
+              · rcases hc with ⟨_, _, er⟩ | ⟨_, ew, _⟩
+                · rw [hok] at er; cases er
+                · rw [ew, (enabledW_frame _).1] at h4'
+                  simp only [Option.some.injEq] at h4'
+                  rw [← h4']; exact restored_finalizePatch kind s wl
+          · intro hp _ v k hf
+            rcases finalize_direct kind w br o3 wl h3 hw hp with ⟨_, hc⟩ | ⟨_, hc⟩
+            · rcases hc with ⟨_, _, er⟩ | ⟨_, ew, _⟩
+              · rw [hok] at er; cases er
+              · rw [ew] at hf; exact findHPA_enabledW _ v k hf
+            · rcases hc with ⟨_, _, er⟩ | ⟨s, _, hc⟩
+              · rw [hok] at er; cases er
+              · rcases hc with ⟨_, _, er⟩ | ⟨_, ew, _⟩
+                · rw [hok] at er; cases er
+                · rw [ew] at hf; exact findHPA_enabledW _ v k hf
+      rcases finalize_cases kind o3.world br noFault o4 h4 with ⟨_, ho⟩ | ⟨_, _, ho⟩ | ⟨wl4, _, _, hw4, _, hc⟩
+      · subst ho; rfl
+      · subst ho; rfl
+      · rcases hc with ⟨_, ho⟩ | ⟨hp, hc⟩
+        · subst ho; rfl
+        · have hex : ∃ wl, w.wl = some wl := by
+            cases hw : w.wl with
+            | some wl => exact ⟨wl, rfl⟩
+            | none =>
+              exfalso
+              have : o3.world = w := by
+                rcases finalize_cases kind w br noFault o3 h3 with ⟨_, ho⟩ | ⟨_, _, ho⟩ | ⟨wl, _, _, hw', _⟩
+                · subst ho; rfl
+                · subst ho; rfl
+                · rw [hw] at hw'; cases hw'
+              rw [this, hw] at hw4; cases hw4
+          rcases hc with ⟨_, hfw⟩ | ⟨hr, _⟩
+          · rcases hfw with ⟨_, ho⟩ | ⟨_, hfin⟩
+            · subst ho; rfl
+            · exact fin0 o3.world (hshape.2 hp hex) hfin
+          · rw [hshape.1 wl4 hw4 hp] at hr; cases hr
+  · left; left; exact hok
+
 end RV.Props.CtlBlueGreen
